@@ -102,11 +102,11 @@ Theorem C15_index_lookup :
 Proof. exact index_lookup. Qed.
 Print Assumptions C15_index_lookup.
 
-(* retrieval by slice.  PARTIAL: step 1 only, and only the Observer0DGroup family -- BolometerCamera
-   does not provide it (see C15_bolometer_slice_refuted).  The slice is a contiguous run of members
-   in member order; for bounds inside the group it is exactly the members lo .. hi-1. *)
+(* retrieval by slice, every class (BolometerCamera included since the fix c11e2e2).  PARTIAL: step 1
+   only.  The slice is a contiguous run of members in member order; for bounds inside the group it
+   is exactly the members lo .. hi-1. *)
 Theorem C15_slice_lookup_partial :
-  forall c g, c_flavour c = FObserver0D ->
+  forall c g,
   (forall lo hi, getitem c (KSlice lo hi) g = RMems (map mid (slice_of g lo hi))
                  /\ exists pre post, g = pre ++ slice_of g lo hi ++ post)
   /\ (forall lo hi, 0 <= lo -> lo <= hi -> hi <= Z.of_nat (List.length g) ->
@@ -114,7 +114,7 @@ Theorem C15_slice_lookup_partial :
         /\ forall j, lo <= j < hi ->
              nth_error (slice_of g (Some lo) (Some hi)) (Z.to_nat (j - lo)) = nth_error g (Z.to_nat j)).
 Proof.
-  intros c g F; split; [intros; now apply slice_lookup | intros; split; [now apply slice_length | intros; now apply slice_nth]].
+  intros c g; split; [intros; now apply slice_lookup | intros; split; [now apply slice_length | intros; now apply slice_nth]].
 Qed.
 Print Assumptions C15_slice_lookup_partial.
 
@@ -167,13 +167,6 @@ Theorem C15_observe_each_member_exactly_once_in_histories :
   /\ forall m, In m g -> count_occ Z.eq_dec (map mid g) (mid m) = 1%nat.
 Proof. exact observe_once_in_histories. Qed.
 Print Assumptions C15_observe_each_member_exactly_once_in_histories.
-
-(* record of a finding: the faithful model of BolometerCamera.__getitem__ (int or str keys only)
-   answers every slice with TypeError, so "retrievable by slice" fails for that class *)
-Theorem C15_bolometer_slice_refuted :
-  forall g lo hi, getitem cls_BolometerCamera (KSlice lo hi) g = RErr EType.
-Proof. exact bolometer_slice_refuted. Qed.
-Print Assumptions C15_bolometer_slice_refuted.
 
 (* non-vacuity: a well-formed descriptor of each kind, a value of each case, a class, a history *)
 Example C15_nonvacuous :
